@@ -375,7 +375,7 @@ def check_doc(kind, d, where, viol, tags):
         viol.append(dict(fingerprint=fp, what=f'{where}: {what}'))
     d0 = copy.deepcopy(d)
     try:
-        Y = legacy_to_yang(copy.deepcopy(d))
+        Y = legacy_to_yang(d)          # the caller's own document: it must come back untouched (compared with d0 below)
         load_data(json.dumps(Y))
     except Exception as exc:  # noqa
         v(f'{kind}:legacy-to-yang-failed:{type(exc).__name__}', str(exc)[:200])
@@ -384,7 +384,7 @@ def check_doc(kind, d, where, viol, tags):
         v(f'{kind}:conversion-mutates-input', 'legacy_to_yang modified its argument')
     try:
         Y2 = legacy_to_yang(copy.deepcopy(Y))
-        d1 = yang_to_legacy(copy.deepcopy(Y))
+        d1 = yang_to_legacy(copy.deepcopy(Y))      # (yang_to_legacy works in place on its argument: not judged)
         d2 = yang_to_legacy(copy.deepcopy(d1))
         Y3 = legacy_to_yang(copy.deepcopy(d1))
     except Exception as exc:  # noqa
